@@ -225,7 +225,8 @@ fn escapes_children(el_name: &str) -> bool {
 }
 
 enum Item<'a, T> {
-    Node(&'a Node<T>, bool),
+    /// the node, whether its text is escaped, whether it lies in SVG / MathML content
+    Node(&'a Node<T>, bool, bool),
     ClosingTag(String),
 }
 
@@ -357,10 +358,11 @@ impl<'a> InertElementBuilder<'a> {
 fn inert_element_to_tokens(
     node: &Node<impl CustomNode>,
     escape_text: bool,
+    foreign: bool,
     global_class: Option<&TokenTree>,
 ) -> Option<TokenStream> {
     let mut html = InertElementBuilder::new(global_class);
-    let mut nodes = VecDeque::from([Item::Node(node, escape_text)]);
+    let mut nodes = VecDeque::from([Item::Node(node, escape_text, foreign)]);
 
     while let Some(current) = nodes.pop_front() {
         match current {
@@ -370,7 +372,7 @@ fn inert_element_to_tokens(
                 html.push_str(&tag);
                 html.push('>');
             }
-            Item::Node(current, escape) => {
+            Item::Node(current, escape, foreign) => {
                 match current {
                     Node::RawText(raw) => {
                         let text = raw.to_string_best();
@@ -400,7 +402,15 @@ fn inert_element_to_tokens(
                         } else {
                             el_name
                         };
-                        let escape = escapes_children(&el_name);
+                        // below `<svg>` / `<math>` every element is an ordinary element to
+                        // the HTML parser, `<style>` and `<script>` included: their text is
+                        // markup unless it is escaped. Inside the HTML integration points
+                        // (`<foreignObject>`, `<desc>`, `<title>`) HTML rules apply again.
+                        let foreign_el =
+                            foreign || el_name == "svg" || el_name == "math";
+                        let escape = foreign_el || escapes_children(&el_name);
+                        let foreign = foreign_el
+                            && !is_svg_html_integration_point(&el_name);
 
                         // opening tag
                         html.push('<');
@@ -457,7 +467,9 @@ fn inert_element_to_tokens(
                             nodes.push_front(Item::ClosingTag(el_name));
                             let children = node.children.iter().rev();
                             for child in children {
-                                nodes.push_front(Item::Node(child, escape));
+                                nodes.push_front(Item::Node(
+                                    child, escape, foreign,
+                                ));
                             }
                         }
                     }
@@ -605,7 +617,7 @@ fn children_to_tokens(
             .filter_map(|node| {
                 node_to_tokens(
                     node,
-                    TagType::Unknown,
+                    parent_type,
                     Some(&mut slots),
                     global_class,
                     view_marker,
@@ -667,7 +679,9 @@ fn node_to_tokens(
             if !top_level && is_inert {
                 let el_name = el_node.name().to_string();
                 let escape = escapes_children(&el_name);
-                inert_element_to_tokens(node, escape, global_class)
+                let foreign =
+                    matches!(parent_type, TagType::Svg | TagType::Math);
+                inert_element_to_tokens(node, escape, foreign, global_class)
             } else {
                 element_to_tokens(
                     el_node,
@@ -900,7 +914,7 @@ pub(crate) fn element_to_tokens(
                     quote_spanned! { node.name().span() => ::leptos::tachys::svg::#name() }
                 }
                 TagType::Math => {
-                    quote_spanned! { node.name().span() => ::leptos::tachys::math::#name() }
+                    quote_spanned! { node.name().span() => ::leptos::tachys::html::element::#name() }
                 }
             }
         } else {
@@ -934,11 +948,19 @@ pub(crate) fn element_to_tokens(
             quote! { .class((#class, true)) }
         });
 
+        // the content of `<foreignObject>`, `<desc>` and the SVG `<title>` is parsed as HTML
+        let child_type = if parent_type == TagType::Svg
+            && is_svg_html_integration_point(&tag)
+        {
+            TagType::Html
+        } else {
+            parent_type
+        };
         let self_closing = is_self_closing(node);
         let children = if !self_closing {
             element_children_to_tokens(
                 &mut node.children,
-                parent_type,
+                child_type,
                 parent_slots,
                 global_class,
                 view_marker,
@@ -1549,8 +1571,12 @@ fn is_math_ml_element(tag: &str) -> bool {
     .is_ok()
 }
 
+fn is_svg_html_integration_point(tag: &str) -> bool {
+    tag == "foreignObject" || tag == "desc" || tag == "title"
+}
+
 fn is_ambiguous_element(tag: &str) -> bool {
-    tag == "a" || tag == "script" || tag == "title"
+    tag == "a" || tag == "script" || tag == "style" || tag == "title"
 }
 
 fn parse_event(event_name: &str) -> (String, EventNameOptions) {
